@@ -53,15 +53,28 @@ caught_by = sorted(p for p, r in results.items() if r["exit"] != 0)
 with_input = sorted(p for p, r in results.items() if any(v["kind"] == "oracle" for v in r["violations"]))
 prop = json.load(open(f"/tmp/mut/{ID}-out/property.json"))
 notes = open(os.path.join(DST, "NOTES.md")).read() if os.path.exists(os.path.join(DST, "NOTES.md")) else ""
+mm = re.search(r"(?is)(needs? to manifest|needed to manifest|what (exactly )?is needed|to manifest|trigger)[^\n]*\n(.{0,700})", notes)
+needs = ((mm.group(3) if mm and mm.group(3) else notes[:600]) or "").strip()[:700]
 meta = {
     "id": f"{ID}-{M}", "breaks_property": ID, "property_title": prop["title"],
     "produced_by": "independent sub-agent given only the property text and a scratch worktree of /repo (nothing from /verif)",
-    "needs_to_manifest": (re.search(r"(?is)(needed to manifest|what (exactly )?is needed|to manifest)[^\n]*\n(.{0,700})", notes) or [None, None, notes[:600]])[2].strip()[:700],
+    "needs_to_manifest": needs,
     "confirmed": {"patch_applies": confirm.get("applies"), "baseline_tests_with_patch": confirm.get("tests_with_patch"), "demo_with_patch_exit": (confirm.get("demo_with_patch") or {}).get("rc"),
                   "demo_without_patch_exit": (confirm.get("demo_without_patch") or {}).get("rc"), "demo_cmd": (confirm.get("demo_with_patch") or {}).get("cmd"), "ok": confirm.get("confirmed")},
     "ran": [f"git -C /repo apply seeded/{ID}-{M}/patch.diff", *[f"./check {p} quick" for p in props], "git -C /repo checkout -- ."],
     "caught_by": caught_by, "caught_with_failing_input_by": with_input, "target_check_caught_it": ID in caught_by,
     "results": results, "wall_s": round(time.time() - t0, 1),
 }
-json.dump(meta, open(os.path.join(DST, "meta.json"), "w"), indent=1)
+prev_path = os.path.join(DST, "meta.json")
+hist = []
+if os.path.exists(prev_path):
+    try:
+        pm = json.load(open(prev_path))
+        hist = pm.get("history", [])
+        hist.append(f"{pm.get('round', 'round 1')}: own check {'caught' if pm.get('target_check_caught_it') else 'MISSED'} it; caught by {pm.get('caught_by')}")
+    except Exception:
+        pass
+meta["history"] = hist
+meta["round"] = os.environ.get("VERIF_ROUND", f"round {len(hist) + 1}")
+json.dump(meta, open(prev_path, "w"), indent=1)
 print(f"{ID}-{M}: caught by {caught_by} (with failing input: {with_input}); target caught: {ID in caught_by}; {meta['wall_s']}s")
